@@ -93,7 +93,7 @@ def eval_probe(in_src, name):
 def describe_node(n):
     if n is None:
         return None
-    d = {"type": type(n).__name__, "line": getattr(n, "lineno", None), "col": getattr(n, "col_offset", None)}
+    d = {"type": type(n).__name__, "line": getattr(n, "lineno", None), "col": getattr(n, "col_offset", None), "loc": getattr(n, "_location", None)}
     if isinstance(n, ast.arg):
         d["name"] = n.arg
     elif isinstance(n, ast.AnnAssign):
@@ -877,14 +877,14 @@ def run(chk: core.Check) -> int:
         for _ in range(n):
             cases.append(gen_case(rng, len(cases), stream))
     # corpus of past disagreements / written-out witnesses first
-    corpus = []
+    corpus, corpus_multi = [], []
     cdir = core.VERIF / "corpus" / "C13"
     if cdir.is_dir():
         for f in sorted(cdir.glob("*.json")):
             c = json.loads(f.read_text())
             c.setdefault("stream", "corpus")
             c["id"] = "corpus/" + f.name
-            corpus.append(c)
+            (corpus_multi if "ips" in c else corpus).append(c)
     cases = corpus + cases
     impl = core.pmap(impl_and_oracle, cases, chunksize=16)
     reqs = [model_request(c, r["probe"]) for c, r in zip(cases, impl)]
@@ -965,6 +965,88 @@ def run(chk: core.Check) -> int:
     chk.oblige("correspondence: sync_properties (real files) = SyncProps.syncProperties + emit canonicaliser on %d cases (%d outside the model's template/eval domain)" % (n_cmp, n_skip),
                "correspondence", model is not None and n_dis == 0 and n_cmp > 0, "%d disagreements" % n_dis)
     chk.coverage["distribution"] = dist
+    # ---- several pairs in one call ----------------------------------------------------------------------------
+    mcases = list(corpus_multi)
+    for _ in range(700 if chk.quick else 6000):
+        mcases.append(gen_multi(rng, "m%d" % len(mcases)))
+    mimpl = core.pmap(impl_multi, mcases, chunksize=8)
+    mdist = {"pairs_per_call": {}, "mode": {}, "oracle": {}, "result": {}, "wrap": {"none": 0, "template": 0}, "eval": {"on": 0, "off": 0},
+             "outputs_share_a_function_or_class": 0, "same_input_repeated": 0, "model_domain_excluded": {}}
+    m_dis = m_cmp = m_skip = 0
+    mmodel = core.model_batch([model_request_multi(c, r) for c, r in zip(mcases, mimpl)]) if model is not None else None
+    mcmp = core.pmap(_compare_multi_star, list(zip(mcases, mimpl, mmodel)), chunksize=8) if mmodel is not None else [None] * len(mcases)
+    for k, (c, r) in enumerate(zip(mcases, mimpl)):
+        npairs = len(c["ips"])
+        mdist["pairs_per_call"][str(npairs)] = mdist["pairs_per_call"].get(str(npairs), 0) + 1
+        mdist["mode"][c.get("mode", "corpus")] = mdist["mode"].get(c.get("mode", "corpus"), 0) + 1
+        mdist["result"][r["result"]] = mdist["result"].get(r["result"], 0) + 1
+        mdist["wrap"]["none" if c["wrap"] is None else "template"] += 1
+        mdist["eval"]["on" if c["eval"] else "off"] += 1
+        if len(set(c["ips"])) < npairs:
+            mdist["same_input_repeated"] += 1
+        if len({tuple(x.split(".")[:-1]) for x in c["ops"]}) < npairs:
+            mdist["outputs_share_a_function_or_class"] += 1
+        verdict = "not-run"
+        if mmodel is not None:
+            why = in_model_domain_multi(c, r)
+            d = mcmp[k]
+            if why is not None and d is None:
+                m_cmp += 1
+                verdict = "agrees"
+            elif why is not None:
+                verdict = "outside-domain:" + why
+                mdist["model_domain_excluded"][why] = mdist["model_domain_excluded"].get(why, 0) + 1
+            elif d in ("unsupported", "arg-in-statement-list"):
+                verdict = d
+                m_skip += 1
+                mdist["model_domain_excluded"][d] = mdist["model_domain_excluded"].get(d, 0) + 1
+            else:
+                m_cmp += 1
+                verdict = "agrees" if d is None else "differs"
+                if d is not None:
+                    m_dis += 1
+                    chk.disagreement("C13 correspondence: sync_properties with several pairs", {x: c[x] for x in ("in_src", "out_src", "ips", "ops", "wrap", "eval")}, d[0], d[1])
+        status, fails = r["oracle"]
+        mdist["oracle"][status] = mdist["oracle"].get(status, 0) + 1
+        chk.count(("multi", c["in_src"], c["out_src"], tuple(c["ips"]), tuple(c["ops"]), c["wrap"], c["eval"]), status in ("ok", "failed"))
+        causes = set()
+        for sig, what in fails:
+            sig = dict(sig, model=verdict)
+            if verdict == "outside-domain:location-clash-inside-opaque-node" and sig.get("cause") != "ast_parse-docstring-reindent":
+                sig = {x: y for x, y in sig.items() if x not in ("found", "why", "causes")}
+                sig["cause"] = "string-constant-clash"
+            causes.add(sig.get("cause") or sig.get("where") or sig.get("kind"))
+            causes.update((sig.get("causes") or "").split("+"))
+            chk.failure(sig, what, {"fn": "sync-multi", "case": {x: c[x] for x in ("in_src", "out_src", "ips", "ops", "wrap", "eval")}, "sig": {x: y for x, y in sig.items() if x != "model"}})
+        if k < len(corpus_multi):
+            want = c.get("expect")
+            if want == "pass" and status != "ok":
+                chk.notes.append("fixed multi-pair call %s: oracle %s" % (c["id"], status))
+            elif want not in (None, "pass") and want not in causes and want != r["result"]:
+                chk.notes.append("corpus witness %s no longer shows %r (got %s / %s)" % (c["id"], want, r["result"], sorted(map(str, causes))))
+                stale.append(c["id"])
+        if len(corpus_multi) <= k < len(corpus_multi) + 2:
+            chk.sample({"pairs": list(zip(c["ips"], c["ops"])), "wrap": c["wrap"], "eval": c["eval"], "output_before": c["out_src"][:300], "result": r["result"],
+                        "output_after": r["after"][:300] if r["result"] == "ok" else None, "oracle": status})
+    chk.oblige("correspondence: sync_properties with 2-4 pairs per call (real files) = SyncProps.syncAll + emit canonicaliser on %d calls (%d outside the model's domain)" % (m_cmp, m_skip),
+               "correspondence", mmodel is not None and m_dis == 0 and m_cmp > 0, "%d disagreements" % m_dis)
+    chk.coverage["distribution_multi_pair_calls"] = mdist
+    chk.coverage["corpus_witnesses"]["run"] = len(corpus) + len(corpus_multi)
+    # the single-pair cases through the multi-pair model as well: both models must give the same module
+    if model is not None:
+        sub = [(c, r) for c, r in zip(cases, impl)][: 600 if chk.quick else 5000]
+        both = core.model_batch([{"op": "c13.sync_multi", "input": pyast.module_to_json(c["in_src"]), "output": pyast.module_to_json(c["out_src"]), "wrap": c["wrap"],
+                                  "input_eval": c["eval"], "pairs": [{"input_param": c["ip"], "output_param": c["op"],
+                                                                      "eval_value": (r["probe"].get("eval", {}).get("items") if c["eval"] and r["probe"].get("eval", {}).get("kind") == "seq" else None)}]}
+                                 for c, r in sub])
+        bad = 0
+        for k, ((c, r), b2) in enumerate(zip(sub, both)):
+            a2 = model[k]
+            if (a2.get("ok"), a2.get("error")) != (b2.get("ok"), b2.get("error")):
+                bad += 1
+                chk.disagreement("C13: single-pair model vs multi-pair model", {x: c[x] for x in ("in_src", "out_src", "ip", "op", "wrap", "eval")}, a2.get("error") or "ok", b2.get("error") or "ok")
+        chk.oblige("the single-pair model (SyncProps.syncProperties) and the multi-pair model on one pair (SyncProps.syncAll) give the same module on %d cases" % len(sub),
+                   "correspondence", bad == 0, "%d differences" % bad)
     # ---- secondary ops -------------------------------------------------------------------------------------
     if model is not None:
         srcs = sorted({c["in_src"] for c in cases} | {c["out_src"] for c in cases})
@@ -1047,6 +1129,420 @@ def run(chk: core.Check) -> int:
         "input's name + (wrapped) annotation / Literal of the evaluated value, defaults aligned, input bytes unchanged. non-trivial = both paths valid (oracle evaluated)")
 
 
+# ------------------------------------------------------------------------------------------------------------
+# several (input-param, output-param) pairs in ONE call of sync_properties
+# ------------------------------------------------------------------------------------------------------------
+def impl_multi(case):
+    """the real sync_properties with lists of params; probes per pair (on the files as they are before the call)"""
+    import cdd.class_.parse  # noqa: F401
+    from cdd.compound.sync_properties import sync_properties
+    from cdd.shared.ast_utils import find_in_ast
+    from cdd.shared.pure_utils import strip_split
+    from cdd.shared.source_transformer import ast_parse
+
+    d = _tmpdir()
+    a, b = os.path.join(d, "input_.py"), os.path.join(d, "output_.py")
+    with open(a, "wt") as f:
+        f.write(case["in_src"])
+    with open(b, "wt") as f:
+        f.write(case["out_src"])
+    res = {}
+    try:
+        sync_properties(case["eval"], a, list(case["ips"]), b, list(case["ops"]), case["wrap"])
+        res["result"] = "ok"
+    except BaseException as e:  # noqa
+        res["result"] = core.exc_name(e)
+        res["msg"] = str(e)[:200]
+    with open(a, "rt") as f:
+        res["input_same"] = f.read() == case["in_src"]
+    with open(b, "rt") as f:
+        after = f.read()
+    res["after"] = after
+    res["out_same"] = after == case["out_src"]
+    if res["result"] == "ok":
+        try:
+            res["after_json"] = pyast.module_to_json(after)
+        except SyntaxError:
+            res["result"] = "unparseable-output"
+    probes = []
+    for ip, op in zip(case["ips"], case["ops"]):
+        pr = {}
+        search = list(strip_split(op, "."))
+        try:
+            pr["clash"], pr["located"] = clash_probe(case["out_src"], search)
+        except BaseException as e:  # noqa
+            pr["clash"], pr["located"] = ["probe-" + type(e).__name__], []
+        if case["eval"]:
+            pr["eval"] = eval_probe(case["in_src"], ip) if "." not in ip else {"kind": "dotted"}
+        else:
+            try:
+                t = ast_parse(case["in_src"], filename="i.py")
+                pr["find"] = describe_node(find_in_ast(list(strip_split(ip, ".")), t))
+            except BaseException as e:  # noqa
+                pr["find"] = {"type": core.exc_name(e)}
+        probes.append(pr)
+    res["probes"] = probes
+    res["oracle"] = oracle_multi(case, res)
+    return res
+
+
+def pair_spec(case, k, before, in_tree, probe):
+    """('skip', why) or the specification of pair k: candidates in the output, expected (name, annotation, value)"""
+    op = [c.strip() for c in case["ops"][k].split(".")]
+    ip = [c.strip() for c in case["ips"][k].split(".")]
+    out_cands = [c for c in resolve(before, op) if c.get("list") not in ("posonlyargs", "vararg", "kwarg")]
+    if not out_cands:
+        return "skip", "invalid-output-path"
+    exp = []
+    if case["eval"]:
+        ev = probe.get("eval", {})
+        if ev.get("kind") != "seq" or not ev["items"]:
+            return "skip", "not-evaluable"
+        exp.append((None, wrap_expr(case["wrap"], literal_expr(ev["items"])), None))
+        in_cands = []
+    else:
+        in_cands = [c for c in resolve(in_tree, ip) if c.get("list") not in ("posonlyargs", "vararg", "kwarg")]
+        if not in_cands:
+            return "skip", "invalid-input-path"
+        for c in in_cands:
+            n = node_at(in_tree, c["path"])
+            if isinstance(n, ast.arg):
+                exp.append((n.arg, wrap_expr(case["wrap"], n.annotation), None))
+            elif isinstance(n, ast.AnnAssign):
+                exp.append((n.target.id, wrap_expr(case["wrap"], n.annotation), n.value))
+            else:
+                return "skip", "assign-input"
+    if any(c["kind"] == "stmt" and len(c["path"]) > 4 for c in out_cands + in_cands):
+        return "skip", "nested-class-path"
+    if ambiguous_head(before, op) or (not case["eval"] and ambiguous_head(in_tree, ip)):
+        return "skip", "class-and-function-share-a-name"
+    if any(c["kind"] == "stmt" for c in out_cands) and any(e[1] is None for e in exp):
+        return "skip", "no-annotation-for-attribute"
+    for c in out_cands:
+        if c["kind"] == "param":
+            c["own_name"] = node_at(before, c["path"]).arg
+    facts = input_facts(in_tree, ip, in_cands) if not case["eval"] else {"in_kind": "eval"}
+    out_kind = "+".join(sorted({("kwonly" if c.get("list") == "kwonlyargs" else "param") if c["kind"] == "param" else "attr" for c in out_cands}))
+    cause = root_cause({"eval": case["eval"]}, {"probe": probe}, facts, in_tree, in_cands, any(c["kind"] == "stmt" for c in out_cands),
+                       {(node_at(before, c["path"]).lineno, node_at(before, c["path"]).col_offset) for c in out_cands})
+    return "ok", {"op": op, "ip": ip, "out_cands": out_cands, "in_cands": in_cands, "exp": exp, "facts": facts, "out_kind": out_kind, "cause": cause}
+
+
+def multi_causes(case, res, specs):
+    """root causes of a failure of a multi-pair call: those of the single pairs + the ones only a second pair can meet"""
+    causes = []
+    for sp in specs:
+        c = sp["cause"]
+        if c.get("cause") == "several-known-causes":
+            causes += [{"cause": x} for x in c["causes"].split("+")]
+        elif c:
+            causes.append(c)
+    probes = res["probes"]
+    if not case["eval"]:
+        finds = [pr.get("find") for pr in probes]
+        # the same input node used again under a wrap template: `replacement_node.annotation = …` wraps it once more
+        if case["wrap"] is not None:
+            seen = set()
+            for f in finds:
+                if isinstance(f, dict) and f.get("line") is not None:
+                    key = (f["line"], f["col"], f["type"])
+                    if key in seen:
+                        causes.append({"cause": "input-node-wrapped-again"})
+                        break
+                    seen.add(key)
+        # an input node that was moved into the output tree keeps its input-side _location and can capture a later path
+        for j, f in enumerate(finds):
+            if not (isinstance(f, dict) and f.get("loc")):
+                continue
+            moved_itself = f["type"] == "arg" or any(c["kind"] == "stmt" for c in specs[j]["out_cands"])
+            if moved_itself and any(f["loc"] == specs[k]["op"] for k in range(j + 1, len(specs))):
+                causes.append({"cause": "stale-location-of-moved-input-node"})
+                break
+    # `_idx` is not renumbered between pairs but the self/cls offset is recomputed from the CURRENT first parameter:
+    # once an earlier pair has renamed a leading self/cls (or renamed the first parameter to self/cls) the defaults index of
+    # a later pair in that function is off by one
+    if not case["eval"]:
+        for j, sp in enumerate(specs):
+            for c in sp["out_cands"]:
+                if c["kind"] == "param" and c["list"] == "args" and c["j"] == 0 and c.get("own_name") is not None and sp["exp"][0][0] is not None:
+                    if (c["own_name"] in ("self", "cls")) != (sp["exp"][0][0] in ("self", "cls")):
+                        if any(c2.get("fnpath") == c["fnpath"] for k in range(j + 1, len(specs)) for c2 in specs[k]["out_cands"]):
+                            causes.append({"cause": "stale-idx-after-first-parameter-renamed"})
+    names = []
+    for c in causes:
+        if c["cause"] not in names:
+            names.append(c["cause"])
+    if len(names) > 1:
+        return {"cause": "several-known-causes", "causes": "+".join(names)}
+    return causes[0] if causes else {}
+
+
+def oracle_multi(case, res):
+    """every selected output location takes its input's name + annotation (Literal under eval), wrapped once if a template
+    is given; nothing else in the output file changes; the input file's bytes are unchanged"""
+    if case["wrap"] is not None and not template_ok(case["wrap"]):
+        return "skipped:invalid-template", []
+    fails = []
+    if not res["input_same"]:
+        fails.append(({"kind": "input-modified"}, "the input file's bytes changed"))
+    before = norm_docstrings(ast.parse(case["out_src"]))
+    in_tree = ast.parse(case["in_src"])
+    specs = []
+    for k in range(len(case["ips"])):
+        st, sp = pair_spec(case, k, before, in_tree, res["probes"][k])
+        if st == "skip":
+            return ("skipped:" + sp if not fails else "failed"), fails
+        specs.append(sp)
+    if len({tuple(sp["op"]) for sp in specs}) < len(specs):
+        # two inputs for one location: the statement does not say which one wins (the code raises AssertionError)
+        return ("skipped:same-output-twice" if not fails else "failed"), fails
+    # the renames together must leave every signature with distinct parameter names
+    final = {}
+    for sp in specs:
+        for c in sp["out_cands"]:
+            if c["kind"] == "param":
+                fn = node_at(before, c["fnpath"])
+                names = final.setdefault(c["fnpath"], {("posonlyargs", j): x.arg for j, x in enumerate(fn.args.posonlyargs)} |
+                                         {("args", j): x.arg for j, x in enumerate(fn.args.args)} | {("kwonlyargs", j): x.arg for j, x in enumerate(fn.args.kwonlyargs)} |
+                                         {(ln, 0): getattr(fn.args, ln).arg for ln in ("vararg", "kwarg") if getattr(fn.args, ln)})
+                if sp["exp"][0][0] is not None:
+                    names[(c["list"], c["j"])] = sp["exp"][0][0]
+    for names in final.values():
+        if len(set(names.values())) < len(names):
+            return ("skipped:rename-collision" if not fails else "failed"), fails
+    cause = multi_causes(case, res, specs)
+    region = {"in_kind": "+".join(sorted({sp["facts"]["in_kind"] for sp in specs})), "out_kind": "+".join(sorted({sp["out_kind"] for sp in specs}))}
+    label = ", ".join("%s → %s" % (a, b) for a, b in zip(case["ips"], case["ops"]))
+    if res["result"] != "ok":
+        sig = dict(region, kind="raises", exc=res["result"].split(":")[-1], **cause)
+        if not res["out_same"]:
+            sig["output_changed"] = True
+        fails.append((sig, "sync_properties %s on valid pairs (%s)%s" % (res["result"], label, ": " + res.get("msg", "") if res.get("msg") else "")))
+        return "failed", fails
+    try:
+        after = norm_docstrings(ast.parse(res["after"]))
+    except SyntaxError:
+        fails.append((dict(region, kind="unparseable-output", **cause), "the rewritten output file is not valid Python"))
+        return "failed", fails
+    diffs = list(tree_diff(before, after))
+
+    def within(d, c):
+        return d[: len(c["path"])] == c["path"] or (c["dpath"] is not None and d[: len(c["dpath"])] == c["dpath"])
+
+    claimed = []
+    chosen = []
+    for sp in specs:
+        touched = [c for c in sp["out_cands"] if c["path"] not in claimed and any(within(d, c) for d in diffs)]
+        c0 = touched[0] if touched else None
+        chosen.append(c0)
+        if c0 is not None:
+            claimed.append(c0["path"])
+    all_cands = [c for sp in specs for c in sp["out_cands"]]
+    outside = [d for d in diffs if not any(c0 is not None and within(d, c0) for c0 in chosen)]
+    seen = set()
+    for d in outside:
+        cl = classify_outside(before, after, d, all_cands)
+        if cl["where"] in ("docstring", "module-docstring"):
+            bo = black_only(case["out_src"])
+            if bo is not None:
+                try:
+                    bt = norm_docstrings(ast.parse(bo))
+                    cl["cause"] = "black-docstring-normalisation" if node_at(bt, d) == node_at(after, d) else "ast_parse-docstring-reindent"
+                except Exception:  # noqa
+                    pass
+        elif cl["where"] == "default":
+            if cl["of"] == "other-definition" or "stale" in str(cause.get("cause")) + str(cause.get("causes")):
+                cl.update(cause)
+        else:
+            cl.update(cause)
+        sig = dict(kind="frame", **cl)
+        key = json.dumps(sig, sort_keys=True)
+        if key not in seen:
+            seen.add(key)
+            fails.append((sig, "outside the selected slots (%s) the output changed at %s: %s → %s" % (label, "/".join(map(str, d)), safe_show(before, d), safe_show(after, d))))
+    for k, (sp, c0) in enumerate(zip(specs, chosen)):
+        slot_ok, why = False, []
+        for c in ([c0] if c0 is not None else sp["out_cands"]):
+            b_node = node_at(before, c["path"])
+            try:
+                a_node = node_at(after, c["path"])
+            except Exception:  # noqa
+                why.append("slot missing afterwards")
+                continue
+            for (nm, ann, val) in sp["exp"]:
+                if c["kind"] == "param":
+                    want = b_node.arg if nm is None else nm
+                    if not isinstance(a_node, ast.arg) or a_node.arg != want:
+                        why.append("name %r, expected %r" % (getattr(a_node, "arg", type(a_node).__name__), want))
+                        continue
+                    if dump(a_node.annotation) != dump(ann):
+                        why.append("annotation %s, expected %s" % (show(a_node.annotation), show(ann)))
+                        continue
+                    if c["dpath"] is not None:
+                        bd, ad = node_at(before, c["dpath"]), node_at(after, c["dpath"])
+                        if dump(ad) != dump(bd) and not (val is not None and dump(ad) == dump(val)):
+                            why.append("default %s, expected %s or the input's value" % (show(ad), show(bd)))
+                            continue
+                    slot_ok = True
+                else:
+                    own = b_node.target.id if isinstance(b_node, ast.AnnAssign) else b_node.targets[0].id
+                    want = own if nm is None else nm
+                    if not isinstance(a_node, ast.AnnAssign) or not isinstance(a_node.target, ast.Name) or a_node.target.id != want:
+                        why.append("statement %s, expected annotated %r" % (show(a_node)[:60], want))
+                        continue
+                    if dump(a_node.annotation) != dump(ann):
+                        why.append("annotation %s, expected %s" % (show(a_node.annotation), show(ann)))
+                        continue
+                    slot_ok = True
+                if slot_ok:
+                    break
+            if slot_ok:
+                break
+        if not slot_ok:
+            sig = dict(region, kind="slot", **cause)
+            if case["eval"]:
+                ev = res["probes"][k]["eval"]
+                try:
+                    got = dump(node_at(after, (c0 or sp["out_cands"][0])["path"]).annotation)
+                except Exception:  # noqa
+                    got = None
+                if got is not None and got == dump(wrap_expr(case["wrap"], literal_expr(ev["items"], strip_quotes=True))):
+                    sig["cause"] = "set_value-strips-quotes"
+                    sig.pop("causes", None)
+            if "cause" not in sig and c0 is None:
+                sig["cause"] = "slot-not-updated"
+            fails.append((sig, "pair %d of %d (%s → %s): the selected slot is not what the property describes: %s" % (
+                k + 1, len(specs), case["ips"][k], case["ops"][k], "; ".join(why[:3]))))
+    return ("failed" if fails else "ok"), fails
+
+
+def model_request_multi(case, res):
+    pairs = []
+    for k, (ip, op) in enumerate(zip(case["ips"], case["ops"])):
+        ev = res["probes"][k].get("eval", {}) if case["eval"] else {}
+        pairs.append({"input_param": ip, "output_param": op, "eval_value": ev["items"] if ev.get("kind") == "seq" else None})
+    return {"op": "c13.sync_multi", "input": pyast.module_to_json(case["in_src"]), "output": pyast.module_to_json(case["out_src"]),
+            "pairs": pairs, "wrap": case["wrap"], "input_eval": case["eval"]}
+
+
+def in_model_domain_multi(case, res):
+    for pr in res["probes"]:
+        if pr.get("clash"):
+            return "location-clash-inside-opaque-node"
+        if case["eval"] and pr.get("eval", {}).get("kind") in ("unsupported", "exec-raises"):
+            return "eval-" + pr["eval"]["kind"]
+    if case["wrap"] is not None and not template_ok(case["wrap"]):
+        return "template-not-in-normal-form"
+    return None
+
+
+def compare_multi(case, res, m):
+    if "error" in m and m["error"] in ("unsupported", "arg-in-statement-list"):
+        return m["error"]
+    if res["result"] != "ok":
+        mv = m.get("error")
+        if mv != res["result"]:
+            return (res["result"], mv if mv else "ok")
+        if res["result"] != "unparseable-output" and not res["out_same"]:
+            return (res["result"] + " but the output file changed", mv)
+        return None
+    if "ok" not in m:
+        return ("ok", m.get("error"))
+    cm = canon_model(m["ok"])
+    if cm != res["after_json"]:
+        return (res["after_json"], cm)
+    return None
+
+
+def _compare_multi_star(t):
+    return compare_multi(*t)
+
+
+def gen_multi(r, k, stream="multi"):
+    """2–4 pairs in one call: distinct inputs / one input for several outputs / one output twice; outputs preferably in
+    one function or class"""
+    ev = r.random() < 0.22
+    for _ in range(80):
+        inp = c13mod.gen_module(r, "input", 0.0, 0.1, safe=ev)
+        out = c13mod.gen_module(r, "output", 0.0, 0.1)
+        isl, osl = c13mod.slots(inp), c13mod.slots(out)
+        n = r.choice([2, 2, 2, 3, 3, 4])
+        mode = r.choices(["distinct", "same-input", "same-output"], [48, 44, 8])[0]
+        outs = [s for s in osl if s["kind"] in OUT_KINDS]
+        if len(outs) < 2:
+            continue
+        first = pick(r, outs, OUT_KINDS)
+        same_home = [s for s in outs if s["pos"] == first["pos"] and s["path"] != first["path"]] if "list" in first else \
+            [s for s in outs if "list" not in s and s["pos"][:-1] == first["pos"][:-1] and s["path"] != first["path"]]
+        chosen_o = [first]
+        while len(chosen_o) < n:
+            pool = same_home if (same_home and r.random() < 0.6) else outs
+            c = pick(r, pool, OUT_KINDS)
+            if mode != "same-output" and any(c["path"] == x["path"] for x in chosen_o):
+                if all(any(c2["path"] == x["path"] for x in chosen_o) for c2 in outs):
+                    break
+                continue
+            chosen_o.append(c)
+        if len(chosen_o) < 2:
+            continue
+        if mode == "same-output":
+            chosen_o[r.randrange(1, len(chosen_o))] = chosen_o[0]
+        n = len(chosen_o)
+        if ev:
+            cands = [s for s in isl if s["kind"] == "var-assign"]
+            if not cands:
+                continue
+            chosen_i = [r.choice(cands)] * n if mode == "same-input" else [r.choice(cands) for _ in range(n)]
+        else:
+            i0 = pick(r, isl, IN_KINDS)
+            if i0 is None:
+                continue
+            chosen_i = [i0] * n if mode == "same-input" else [pick(r, isl, IN_KINDS) for _ in range(n)]
+            if mode == "same-input" and n > 2 and r.random() < 0.3:
+                chosen_i[-1] = pick(r, isl, IN_KINDS)
+        if not ev and mode != "same-output" and r.random() < 0.85:
+            # keep the request meaningful: the renames must not give one signature two parameters of one name, and an attribute
+            # needs an annotated input
+            bad = False
+            seen_names = {}
+            for i, o in zip(chosen_i, chosen_o):
+                it = c13mod.slot_item(inp, i)
+                if "list" not in o and (i["kind"] in ("attr-assign", "var-assign") or ("list" in i and it.get("ann") is None)):
+                    bad = True
+                if i["kind"] in ("attr-assign", "var-assign"):
+                    bad = True
+                if "list" in o:
+                    fn = c13mod.stmt_at(out, o["pos"])
+                    names = seen_names.setdefault(tuple(o["pos"]), {(kk, j): x["name"] for kk in ("posonly", "args", "kwonly") for j, x in enumerate(fn["args"][kk])})
+                    names[(o["list"], o["j"])] = i["path"][-1]
+                    others = [fn["args"][kk]["name"] for kk in ("vararg", "kwarg") if fn["args"][kk]]
+                    if len(set(names.values()) | set(others)) < len(names) + len(others):
+                        bad = True
+            if bad:
+                continue
+        ipaths = [list(i["path"]) for i in chosen_i]
+        # a shared name now and then (default transfer, stale _idx of moved parameters)
+        if not ev and r.random() < 0.3:
+            k2 = r.randrange(n)
+            np_ = c13mod.rename_slot(inp, chosen_i[k2], chosen_o[k2]["path"][-1])
+            if np_:
+                old = ipaths[k2]
+                ipaths = [np_ if p_ == old else p_ for p_ in ipaths]
+        if not ev:
+            for i in chosen_i:
+                if i["kind"] in ("attr", "var") and r.random() < 0.25:
+                    c13mod.slot_item(inp, i)["value"] = r.choice(["5", "'new'", "[1]"])
+        wrap = r.choice(c13mod.WRAPS) if r.random() < 0.4 else None
+        try:
+            in_src, out_src = render(inp), render(out)
+            ast.parse(in_src), ast.parse(out_src)
+        except (SyntaxError, ValueError):
+            continue
+        return {"id": k, "stream": stream, "mode": mode, "in_src": in_src, "out_src": out_src, "ips": [".".join(p_) for p_ in ipaths],
+                "ops": [".".join(o["path"]) for o in chosen_o], "wrap": wrap, "eval": ev}
+    raise core.HarnessError("c13: generator could not build a multi-pair case")
+
+
 def _compare_star(t):
     return compare(*t)
 
@@ -1055,6 +1551,20 @@ def replay(path: str) -> int:
     core.repo_on_path()
     d = json.loads(Path(path).read_text())
     rp = d.get("replay") or {}
+    if rp.get("fn") == "sync-multi":
+        c = rp["case"]
+        r = impl_multi(c)
+        status, fails = r["oracle"]
+        print("replay sync_properties(%s, wrap=%r, eval=%s): %s" % (", ".join("%s → %s" % x for x in zip(c["ips"], c["ops"])), c["wrap"], c["eval"], r["result"]))
+        print("--- output before ---\n%s--- output after ---\n%s" % (c["out_src"], r["after"]))
+        for sig, what in fails:
+            print("FAILS: %s :: %s" % (json.dumps(sig, sort_keys=True), what))
+        shutil.rmtree(TMP_ROOT, ignore_errors=True)
+        want = rp.get("sig")
+        if want is not None:
+            want = {x: y for x, y in want.items() if x not in ("model",)}
+            return 1 if any(all(sig.get(k) == v for k, v in want.items()) for sig, _ in fails) else 0
+        return 1 if fails else 0
     if rp.get("fn") != "sync":
         print("replay: nothing to replay in %s" % path)
         return 2
